@@ -1579,6 +1579,7 @@ fn main() {
     let mut maxops = 120u64;
     let mut monitors = true;
     let mut statsp: Option<String> = None;
+    let mut only: Option<u64> = None;
     let mut i = 1;
     while i < args.len() {
         match args[i].as_str() {
@@ -1588,6 +1589,7 @@ fn main() {
             "--out" => { outp = args[i + 1].clone(); i += 1 }
             "--stats" => { statsp = Some(args[i + 1].clone()); i += 1 }
             "--maxops" => { maxops = args[i + 1].parse().unwrap(); i += 1 }
+            "--only" => { only = Some(args[i + 1].parse().unwrap()); i += 1 }
             "--no-monitors" => monitors = false,
             x => panic!("unknown argument {}", x),
         }
@@ -1600,6 +1602,9 @@ fn main() {
     let mut all_viol: Vec<(String, String)> = Vec::new();
     let debug = cfg!(debug_assertions);
     for h in 0..histories {
+        if only.map_or(false, |o| o != h) {
+            continue;
+        }
         let hseed = seed.wrapping_mul(1_000_003).wrapping_add(h);
         let mut cx = Ctx {
             maps: (0..NSLOTS).map(|_| None).collect(),
